@@ -25,7 +25,12 @@ type c10Client struct {
 
 func c10GenClient(tp *simkern.Tape, sv [3]int) c10Client {
 	ver := func(a, b, c int) string { return fmt.Sprintf("%d.%d.%d", a, b, c) }
-	switch tp.Draw(16) {
+	switch tp.Draw(17) {
+	case 16: // a sign in front of a component (strconv.Atoi takes it; the grammar does not)
+		parts := []string{strconv.Itoa(sv[0]), strconv.Itoa(sv[1]), strconv.Itoa(sv[2])}
+		k := tp.Draw(3)
+		parts[k] = []string{"+", "-"}[tp.Draw(2)] + parts[k]
+		return c10Client{true, strings.Join(parts, ".")}
 	case 0:
 		return c10Client{true, ver(sv[0], sv[1], sv[2])}
 	case 1:
@@ -160,6 +165,10 @@ func C10(e *simkern.Env) {
 	for i := 0; i < n; i++ {
 		nonce := int64(10000 + i)
 		c := c10GenClient(tp, sv)
+		if i > 0 && tp.Bool(1, 3) {
+			// the same version string again on the same connection / worker
+			c = calls[i-1].c
+		}
 		op := &pipew.Op{CancelAt: -1, ReqID: fmt.Sprintf("rq-%d", nonce)}
 		switch tp.Draw(3) {
 		case 0, 1:
